@@ -8,10 +8,10 @@ package main
 
 import (
 	"fmt"
-	"os"
 	"go/ast"
 	"go/token"
 	"go/types"
+	"os"
 )
 
 func init() { register("C12", false, checkC12) }
